@@ -17,14 +17,14 @@ META = {
     'technique': 'Coq proof (induction over the type grammar with inversion on each parser success path) on a hand-written '
                  'Gallina model of loaders.py/parsers.py + differential correspondence + direct conformance predicate on both engines',
     'design_ref': 'DESIGN.md section 4 C05',
-    'theorems': ['C05_v0_conforms_lax', 'C05_v0_partial', 'C05_refuted_union_none', 'C05_refuted_tuple_short',
+    'theorems': ['C05_v0_conforms_lax', 'C05_v0_partial', 'C05_refuted_tuple_short',
                  'C05_refuted_none_annotation', 'C05_load_hooks_table'],
     'tables': ['CoreDumpHooks'],
     'level_text': ('Proved in Coq for EVERY annotation of the grammar, EVERY oracle behaviour of the stdlib functions and EVERY '
                    'input value (no well-typedness hypothesis): whatever the default-engine loader model returns is a value of the '
-                   'annotated type, up to exactly three leniencies (a `None` annotation keeps its input, a Union without None passes '
-                   'None, a fixed tuple with optional members may come back short) - each proved to be a real violation of the '
-                   'strict statement by a witness (C05_refuted_*), replayed on the implementation as findings F44-F46; on the region '
+                   'annotated type, up to exactly two leniencies (a `None` annotation keeps its input, a fixed tuple with optional '
+                   'members may come back short) - each proved to be a real violation of the '
+                   'strict statement by a witness (C05_refuted_*), replayed on the implementation as findings F45, F46; on the region '
                    'safe_ty the strict statement is proved (C05_v0_partial). The model is re-validated against fromdict on well-typed '
                    'and malformed documents on every run. The v1 engine has no model here: it is covered by the direct predicate '
                    '(independent conformance checker on every returned instance) and the malformed stream only.'),
@@ -47,7 +47,7 @@ META = {
                     'Err EUnmodelled and are excluded from the model comparison (counted in the evidence)'],
 }
 
-FINDINGS = ['F44-union-without-none-passes-none', 'F45-short-tuple-with-optional-members', 'F46-none-annotation-accepts-anything']
+FINDINGS = ['F45-short-tuple-with-optional-members', 'F46-none-annotation-accepts-anything']
 
 
 def coq_eval_sharded(ctx, exprs, imports, tag='cases', shard=40):
@@ -183,6 +183,33 @@ def make_cases(ctx):
         root = g.root([t for _, t in chunk], bases=['JSONWizard'] if (i // 4) % 2 == 0 else [])
         cases.append({'root': root, 'value': g.value(root), 'seed': r.getrandbits(48), 'n_mut': n_mut,
                       'labels': [l for l, _ in chunk], 'src': 'systematic'})
+    # regression inputs of the repaired findings F44 (null at a Union without None, default engine) and
+    # F47 (v1: Union with a container member and a scalar member given a container that fails to parse)
+    g3 = Gen(ctx.sub_rng('regress'), {})
+    U = lambda *es: {'t': 'union', 'es': list(es)}
+    I, S_, Fl, B = {'t': 'int'}, {'t': 'str'}, {'t': 'float'}, {'t': 'bool'}
+    LI = {'t': 'seq', 'k': 'list', 'e': I}
+    SI = {'t': 'seq', 'k': 'set', 'e': I}
+    DI = {'t': 'dict', 'k': 'dict', 'kt': S_, 'vt': I}
+    TI = {'t': 'tuple', 'es': [I, S_]}
+    regress = [
+        (U(I, S_), [None, 1, 'a', 1.5, True, [None]]),
+        (U(Fl, B, S_), [None, [], {}]),
+        ({'t': 'seq', 'k': 'list', 'e': U(I, S_)}, [[1, None], [None], ['a', None, 2]]),
+        ({'t': 'tuple', 'es': [U(I, S_), I]}, [[None, 1], [1, None]]),
+        ({'t': 'dict', 'k': 'dict', 'kt': S_, 'vt': U(LI, S_)}, [{'k': None}, {'k': ['a']}]),
+        (U(LI, S_), [['a'], [1, 'Z'], ['1'], [[1]], [None], None, [1.5]]),
+        (U(LI, I), [['a'], [1, 'Z'], [True]]),
+        (U(DI, S_), [{'a': 'x'}, {'a': [1]}, {'a': None}]),
+        (U(SI, S_), [['a'], [1, 'b']]),
+        (U(TI, S_), [['a', 1], [1], [1, 2, 3]]),
+        (U(LI, Fl, S_), [['a'], [1.5], ['1.5']]),
+        ({'t': 'seq', 'k': 'list', 'e': U(LI, S_)}, [[['a']], [[1], ['b']]]),
+    ]
+    for ri, (ty, vals) in enumerate(regress):
+        root = g3.root([copy.deepcopy(ty)], names=['val'], bases=['JSONWizard'] if ri % 2 == 0 else [])
+        cases.append({'root': root, 'value': g3.value(root), 'seed': ri, 'n_mut': 2, 'labels': ['regress'], 'src': 'regress',
+                      'extra_docs': [{'val': v} for v in vals]})
     r2 = ctx.sub_rng('rand')
     for j in range(60 if ctx.tier == 'quick' else 500):
         g2 = Gen(r2, {'neg_timedelta': False, 'nonfinite': False})
@@ -210,7 +237,7 @@ def make_cases(ctx):
 
 
 def strip(c, extra=None):
-    d = {k: c[k] for k in ('root', 'value', 'seed', 'n_mut')}
+    d = {k: c[k] for k in ('root', 'value', 'seed', 'n_mut', 'extra_docs') if k in c}
     if extra is not None:
         d['extra_docs'] = extra
         d['n_mut'] = 0
